@@ -13,6 +13,7 @@ dictionary), SolverThreads.tla (interleavings of two calls and a writer of the g
     call only (recording dict), and no module global may change.
 """
 import hashlib, json, os, random, sys, threading, multiprocessing as mp
+PMAP_TIMEOUT = int(__import__('os').environ.get('VERIF_PMAP_TIMEOUT', '300'))
 from harness import tlc
 from harness.core import Check
 
@@ -392,8 +393,10 @@ UP == [c \\in Callers |-> %s]
     if quick:
         calls = calls[:4000]
     chunks = [calls[i::64] for i in range(64)]
-    with mp.Pool(16) as pool:
-        res = pool.map(_replay_chunk, chunks)
+    from harness.core import pmap
+    res = pmap(ck, _replay_chunk, chunks, "c09", timeout=PMAP_TIMEOUT, chunksize=1)
+    if res is None:
+        ck.finish()
     hashes = {}
     for part in res:
         for x in part:
@@ -442,11 +445,12 @@ UP == [c \\in Callers |-> %s]
     ck.extra["repeatability_classes"] = len(hashes)
 
     # 3. threads (fresh processes) and the read log
-    ctx = mp.get_context("spawn")
     nproc, nthreads, ncalls = (4, 3, 12) if quick else (16, 4, 60)
-    with ctx.Pool(min(nproc, 8)) as pool:
-        tres = pool.map(_thread_job, [(seed + i, nthreads, ncalls) for i in range(nproc)])
-        rl = pool.map(_readlog_job, [0])
+    from harness.core import pmap
+    tres = pmap(ck, _thread_job, [(seed + i, nthreads, ncalls) for i in range(nproc)], "c09-threads", timeout=PMAP_TIMEOUT, procs=min(nproc, 8), ctx="spawn")
+    rl = pmap(ck, _readlog_job, [0], "c09-readlog", timeout=PMAP_TIMEOUT, procs=1, ctx="spawn")
+    if tres is None or rl is None:
+        ck.finish()
     tot = 0
     for t in tres:
         tot += t["calls"]
